@@ -58,8 +58,9 @@ structure Encodable (E : Ext) (t : Table) : Prop where
   periods_len : ∀ p, t.periods = some p → t.ndim ≤ p.length
   /-- what cfitsio prints for a period is one plain token -/
   periods_text : ∀ p, t.periods = some p → ∀ x ∈ p, NumText (E.fmtD x)
-  /-- aux keys are standard keywords, aux values short single-byte text without apostrophe -/
-  aux_ok : ∀ kv ∈ t.aux, KeyOK kv.1 ∧ kv.1 ≠ "END".toList ∧ Lat kv.1 ∧ Lat kv.2 ∧ '\'' ∉ kv.2 ∧ kv.2.length ≤ 68
+  /-- aux keys are standard keywords, aux values single-byte text whose stored form (apostrophes doubled) fits the
+      card: what `write_key` accepts for a standard keyword -/
+  aux_ok : ∀ kv ∈ t.aux, KeyOK kv.1 ∧ kv.1 ≠ "END".toList ∧ Lat kv.1 ∧ Lat kv.2 ∧ storedLen kv.2 ≤ 68
 
 /-! ## 2. keywords with a running number -/
 
@@ -112,25 +113,60 @@ theorem keyN_knots_text (i : Nat) (hi : i < 1000) :
 
 /-! ## 3. the card classes of `write_fits_core` -/
 
-/-- `fits_write_key(TSTRING)` of a short value without apostrophe, no comment -/
+theorem quotesDoubled_dbl_append (v w : Str) : quotesDoubled (dbl v ++ w) = quotesDoubled w := by
+  induction v with
+  | nil => rfl
+  | cons c r ih =>
+    by_cases hc : c = '\''
+    · subst hc
+      simp only [dbl, if_true, List.cons_append]
+      rw [quotesDoubled, ih]
+    · simp only [dbl, if_neg hc, List.cons_append]
+      rw [← ih]
+      generalize dbl r ++ w = x
+      conv => lhs; unfold quotesDoubled
+      split
+      · rename_i heq; cases heq
+      · rename_i heq; injection heq with a b; exact absurd a hc
+      · rename_i heq; injection heq with a b; exact absurd a hc
+      · rename_i heq; injection heq with a b; subst b; rfl
+
+theorem Lat.dbl {v : Str} (hv : Lat v) : Lat (dbl v) := by
+  induction v with
+  | nil => exact hv
+  | cons c r ih =>
+    have hc : c.toNat < 256 := hv c (by simp)
+    have hr : Lat r := fun d hd => hv d (by simp [hd])
+    intro d hd
+    by_cases h : c = '\''
+    · subst h
+      simp only [Fits.dbl, if_true, List.mem_cons] at hd
+      rcases hd with rfl | rfl | hd
+      · decide
+      · decide
+      · exact ih hr d hd
+    · simp only [Fits.dbl, if_neg h, List.mem_cons] at hd
+      rcases hd with rfl | hd
+      · exact hc
+      · exact ih hr d hd
+
+/-- `fits_write_key(TSTRING)` of any value whose stored form fits the card (apostrophes included), no comment -/
 theorem cardRT_cardStr (key v : Str) (hk : KeyOK key) (hend : key ≠ "END".toList) (hkl : Lat key)
-    (hv : Lat v) (hq : '\'' ∉ v) (hl : v.length ≤ 68) : CardRT (cardStr key v []) := by
-  have hval : s2c v = '\'' :: (pad8 v ++ ['\'']) := s2c_plain v hq hl
-  have hnq : ∀ c ∈ pad8 v, c ≠ '\'' := by
+    (hv : Lat v) (hl : storedLen v ≤ 68) : CardRT (cardStr key v []) := by
+  have hval : s2c v = '\'' :: (dbl v ++ List.replicate (8 - storedLen v) ' ' ++ ['\'']) := s2c_dbl v hl
+  have hnq : ∀ c ∈ List.replicate (8 - storedLen v) ' ', c ≠ '\'' := by
     intro c hc
-    unfold pad8 at hc
-    rcases List.mem_append.mp hc with h | h
-    · intro e; exact hq (e ▸ h)
-    · rw [List.eq_of_mem_replicate h]; decide
-  have hlen : (pad8 v).length ≤ 68 := by
-    simp only [pad8, List.length_append, List.length_replicate]; omega
-  have hlatp : Lat (pad8 v) := Lat.append hv (Lat.blanks _)
+    rw [List.eq_of_mem_replicate hc]; decide
+  have hlen : (dbl v ++ List.replicate (8 - storedLen v) ' ').length ≤ 68 := by
+    simp only [List.length_append, List.length_replicate, dbl_length]; omega
+  have hlatp : Lat (dbl v ++ List.replicate (8 - storedLen v) ' ') := Lat.append (Lat.dbl hv) (Lat.blanks _)
   have hlatq : Lat ['\''] := by simp only [Lat]; decide
-  refine cardRT_string (cardStr key v []) (pad8 v) ⟨hk, hval, quotesDoubled_of_noQuote _ hnq, rfl, ?_⟩
+  refine cardRT_string (cardStr key v []) (dbl v ++ List.replicate (8 - storedLen v) ' ')
+    ⟨hk, hval, by rw [quotesDoubled_dbl_append]; exact quotesDoubled_of_noQuote _ hnq, rfl, ?_⟩
     hend hkl ?_ (show Lat ([] : Str) from fun _ h => nomatch h)
   · show (if ([] : Str) = [] then 10 + (s2c v).length ≤ 80 else _)
     rw [if_pos rfl, hval]
-    simp only [List.length_cons, List.length_append, List.length_nil]; omega
+    simp only [List.length_cons, List.length_append, List.length_nil] at hlen ⊢; omega
   · show Lat (s2c v)
     rw [hval]
     exact Lat.append hlatq (Lat.append hlatp hlatq)
@@ -193,8 +229,8 @@ theorem cardRT_auxCards (E : Ext) (t : Table) (h : Encodable E t) : ∀ c ∈ au
   intro c hc
   simp only [auxCards, List.mem_map] at hc
   obtain ⟨kv, hkv, rfl⟩ := hc
-  obtain ⟨h1, h2, h3, h4, h5, h6⟩ := h.aux_ok kv hkv
-  exact cardRT_cardStr _ _ h1 h2 h3 h4 h5 h6
+  obtain ⟨h1, h2, h3, h4, h5⟩ := h.aux_ok kv hkv
+  exact cardRT_cardStr _ _ h1 h2 h3 h4 h5
 
 /-! ## 4. the HDUs -/
 
@@ -213,7 +249,7 @@ theorem hduOK_extHdu (n : Nat) (d : List UInt64) (nm : Str) (hd : d.length = n) 
   · intro c hc
     change c ∈ [cardStr "EXTNAME".toList nm []] at hc
     rw [List.mem_singleton] at hc; subst hc
-    exact cardRT_cardStr _ _ (by decide) (by decide) (by decide) hnm hq hl
+    exact cardRT_cardStr _ _ (by decide) (by decide) (by decide) hnm (by rw [storedLen_plain nm hq]; exact hl)
 
 theorem hduOK_knotHdu (E : Ext) (t : Table) (h : Encodable E t) (i : Nat) (hi : i < t.ndim) :
     HduOK (knotHdu t i) := by
@@ -300,7 +336,7 @@ theorem writeCore_decode_encode (E : Ext) (t : Table) (h : Encodable E t) :
 /-- a number formatter that prints `0.` for everything -/
 def exExt0 : Ext := ⟨fun _ => ['0', '.'], fun _ => some 0, fun _ => 0, fun _ => 0⟩
 
-/-- 2 × 3 coefficients, orders 2 and 3, extents, periods, one aux key whose value has a blank inside -/
+/-- 2 × 3 coefficients, orders 2 and 3, extents, periods, two aux keys (a blank inside; a single apostrophe and a run of two) -/
 def exT : Table :=
   { order := [2, 3]
     knots := [[0, 1, 2, 3, 4], [10, 11, 12, 13, 14, 15, 16]]
@@ -309,7 +345,7 @@ def exT : Table :=
     coef := [1, 2, 3, 4, 5, 6]
     extents := some [2, 2, 13, 13]
     periods := some [0, 7]
-    aux := [("AUTHOR".toList, "J. Doe".toList)] }
+    aux := [("AUTHOR".toList, "J. Doe".toList), ("REMARK".toList, "it's ''".toList)] }
 
 theorem exT_encodable : Encodable exExt0 exT := by
   constructor <;> decide
